@@ -8,8 +8,8 @@ T1  src/daemon/http/dispatch/*.rs, request.rs
     request to the handler (`proceed_permitted(P, scope)`, `proceed_unchecked()`, `proceed_raw()`), or to a
     function end after a bare `check_permission` ("gate only"). For every leaf: method, path pattern,
     the ordered list of gates `(Permission, scope)` with scope None or the path parameter the `Some(&x)`
-    variable is bound to, kind, testbed gating, and the permission of a per-entry `has_permission` filter
-    in the handler (listing endpoints). Also: the bodies of the gate functions in request.rs /
+    variable is bound to, kind, testbed gating, and the `has_permission` filter in the handler of a listing
+    endpoint (permission; asked per entry `Some(&entry)` or of the general grant `None`). Also: the bodies of the gate functions in request.rs /
     authorizer.rs / roles.rs must have the recorded shape.
 
 T2  src/daemon/http/auth/permission.rs, roles.rs, config.rs
@@ -300,14 +300,22 @@ class Walker:
         text = norm(' ; '.join(rest))
         if re.search(r'check_permission|proceed_(permitted|unchecked|raw)', text):
             raise TranslateError('%s: gate call after the hand-over' % st.where())
+        # per-entry filter of a listing handler: `has_permission(P, Some(&entry))`; `has_permission(P, None)` in
+        # that position asks the general grant instead (recorded as FGeneral: all entries or none)
         filt = None
-        fm = re.findall(r'has_permission\( ?Permission::(\w+), ?Some\(&(\w+)\) ?\)', text)
+        fm = re.findall(r'has_permission\( ?Permission::(\w+), ?(None|Some\(&(\w+)\)) ?\)', text)
+        if len(fm) != text.count('has_permission'):
+            raise TranslateError('%s: has_permission call not understood' % st.where())
         if len(fm) > 1:
             raise TranslateError('%s: more than one has_permission filter' % st.where())
         if fm:
-            filt = fm[0][0]
-        elif 'has_permission' in text:
-            raise TranslateError('%s: has_permission call not understood' % st.where())
+            perm, sc, var = fm[0]
+            if sc == 'None':
+                filt = (perm, 'FGeneral')
+            elif var in st.env:
+                raise TranslateError('%s: has_permission on the path parameter `%s` after the hand-over' % (st.where(), var))
+            else:
+                filt = (perm, 'FEntry')
         segs = list(st.segs)
         if not st.exhausted:
             segs.append(('R',))
@@ -571,7 +579,7 @@ def generate(repo, out_path):
         gates = coq_list(['G %s %s' % (p, 'SNone' if sc is None else '(SParam %d)' % sc) for p, sc in r['gates']])
         rows.append('mkRoute M%s %s %s %s %s %s  (* %s %s *)' % (
             r['method'], coq_list([seg_coq(s) for s in r['segs']]), gates, r['kind'],
-            'true' if r['testbed'] else 'false', '(Some %s)' % r['filter'] if r['filter'] else 'None',
+            'true' if r['testbed'] else 'false', '(Some (F %s %s))' % r['filter'] if r['filter'] else 'None',
             render(r['segs']), r['trail'][-1]))
     L.append('Definition table_raw : list route :=\n  [ %s\n  ].' % ';\n    '.join(rows))
     L.append('Definition table : list route := canon table_raw.')
@@ -588,7 +596,7 @@ def generate(repo, out_path):
                     'segs': [{'k': s[0], 'v': (s[1] if len(s) > 1 else ''),
                               't': r['segtypes'].get(i, '')} for i, s in enumerate(r['segs'])],
                     'gates': [{'perm': p, 'scope': sc} for p, sc in r['gates']],
-                    'kind': r['kind'], 'testbed': r['testbed'], 'filter': r['filter'], 'path': render(r['segs']),
+                    'kind': r['kind'], 'testbed': r['testbed'], 'filter': ({'perm': r['filter'][0], 'scope': r['filter'][1]} if r['filter'] else None), 'path': render(r['segs']),
                     'cfg': r['cfg'], 'handler': r['trail'][-1]} for r in leaves],
     }
     jp = os.path.splitext(out_path)[0] + '.json'
